@@ -2161,6 +2161,68 @@ def _temp_str_accumulators(tree):
     return count[0]
 
 
+def _specialise_kwargs_helpers(tree):
+    """`def helper(a, b, **options): ... target(x, **options)` called as `helper(p, q, k1=v1, k2=v2)`: the helper only hands its
+    keyword arguments on.  For every such call a copy of the helper with the keywords spelled out (`helper__k1_k2(a, b, k1, k2)`
+    with `target(x, k1=k1, k2=k2)`) is added and called instead, so that the inliner - which does not touch **kwargs - can put
+    the body in place.  Only module-level functions whose **parameter is used in no other way than as `**name` in calls."""
+    funcs = {st.name: st for st in tree.body if isinstance(st, ast.FunctionDef)}
+    cands = {}
+    for name, fn in funcs.items():
+        a = fn.args
+        if not a.kwarg or a.vararg or a.posonlyargs or fn.decorator_list:
+            continue
+        kw = a.kwarg.arg
+        uses = [x for x in ast.walk(fn) if isinstance(x, ast.Name) and x.id == kw]
+        stars = [k.value for c in ast.walk(fn) if isinstance(c, ast.Call) for k in c.keywords if k.arg is None and isinstance(k.value, ast.Name) and k.value.id == kw]
+        if uses and len(uses) == len(stars):
+            cands[name] = fn
+    if not cands:
+        return 0
+    made = {}
+    n = [0]
+
+    class T(ast.NodeTransformer):
+        def visit_Call(self, node):
+            self.generic_visit(node)
+            if isinstance(node.func, ast.Name) and node.func.id in cands and not any(isinstance(x, ast.Starred) for x in node.args) and \
+                    all(k.arg is not None for k in node.keywords):
+                fn = cands[node.func.id]
+                named = {x.arg for x in fn.args.args + fn.args.kwonlyargs}
+                extra = [k.arg for k in node.keywords if k.arg not in named]
+                if not extra:
+                    return node
+                key = (fn.name, tuple(sorted(extra)))
+                if key not in made:
+                    new = copy.deepcopy(fn)
+                    new.name = fn.name + "__" + "_".join(sorted(extra))
+                    kwname = fn.args.kwarg.arg
+                    new.args.kwarg = None
+                    for e in sorted(extra):
+                        new.args.kwonlyargs.append(ast.arg(arg=e))
+                        new.args.kw_defaults.append(None)
+                    for c in ast.walk(new):
+                        if isinstance(c, ast.Call):
+                            ks = []
+                            for k in c.keywords:
+                                if k.arg is None and isinstance(k.value, ast.Name) and k.value.id == kwname:
+                                    ks += [ast.keyword(arg=e, value=ast.Name(id=e, ctx=ast.Load())) for e in sorted(extra)]
+                                else:
+                                    ks.append(k)
+                            c.keywords = ks
+                    made[key] = new
+                node.func = ast.copy_location(ast.Name(id=made[key].name, ctx=ast.Load()), node.func)
+                n[0] += 1
+            return node
+    T().visit(tree)
+    for key, new in made.items():
+        idx = tree.body.index(funcs[key[0]])
+        tree.body.insert(idx + 1, new)
+    if made:
+        ast.fix_missing_locations(tree)
+    return n[0]
+
+
 def inline_module(tree, modname):
     sym_helpers = _symbol_helpers_to_predicates(tree, modname)
     n_rec = _namedtuples_to_tuples(tree)
@@ -2171,7 +2233,10 @@ def inline_module(tree, modname):
     n_acc = _list_acc_to_str(tree)
     jt = _JoinToLoop()
     tree = jt.run(tree)
+    n_kw = _specialise_kwargs_helpers(tree) if known_functions().get(modname) is not None else 0
     inl = Inliner(tree, modname)
+    if n_kw:
+        inl.report.append("%d calls of helpers that only hand **kwargs on read with the keywords spelled out" % n_kw)
     if sym_helpers and inl.known is not None:
         inl.known = set(inl.known) | sym_helpers
     tree = inl.run()
